@@ -128,6 +128,15 @@ def reportedSlack (m : POMDP) (useTol : Bool) (var : Rat) (h : Nat) : Rat :=
 
 def clampActive (m : POMDP) : Bool := decide (1 - m.γ < Gen.C03Src.clamp)
 
+/-- can the as-found `bestConservativeAction` leave out an observation at all, and can that raise a value?  Only if some observation is
+    impossible from some corner under some action and some reward is negative.  Failing lower-bound clauses on other inputs cannot be
+    the known defect C03-1: their clause name gets the suffix `_unexplained` (never a known finding). -/
+def skipExplains (m : POMDP) : Bool :=
+  Gen.C03Src.consSkips && decide (minRall m < 0) &&
+  (List.range m.S).any (fun s => (List.range m.A).any (fun a => (List.range m.O).any (fun o =>
+    checkEqualSmall (sumTo m.S (fun s1 => m.T s a s1 * m.Ob s1 a o)) 0)))
+def sfx (m : POMDP) : String := if skipExplains m then "" else "_unexplained"
+
 /-! ### blind -/
 
 /-- `blind <pomdp> <b0> fast h tol | variation vlist` -/
@@ -277,12 +286,12 @@ def boundClauses (comp : String) (m : POMDP) (r : Refs) (b0 : Vec) (lb ub : Rat)
   let eps := epsOf m
   let u0 := r.U b0
   let l0 := r.L b0
-  let v := v.failIf (!(decide (lb ≤ u0 + eps))) s!"{comp} lb_above_optimal_value lb={ratStr lb} ref={ratStr u0}"
+  let v := v.failIf (!(decide (lb ≤ u0 + eps))) s!"{comp} lb_above_optimal_value{sfx m} lb={ratStr lb} ref={ratStr u0}"
   let v := v.failIf (!(decide (l0 ≤ ub + eps))) s!"{comp} ub_below_optimal_value ub={ratStr ub} ref={ratStr l0}"
-  let v := v.failIf (!(decide (lb ≤ ub + eps))) s!"{comp} lb_above_ub lb={ratStr lb} ub={ratStr ub}"
+  let v := v.failIf (!(decide (lb ≤ ub + eps))) s!"{comp} lb_above_ub{sfx m} lb={ratStr lb} ub={ratStr ub}"
   let ps := probes m b0
   let resV := vecAbove m (vl.toList.map (·.values)) (ps.map (fun x => (x, r.U x))) eps
-  let v := v.failIf resV.isSome s!"{comp} lb_vector_above_optimal_value {resV.getD ""}"
+  let v := v.failIf resV.isSome s!"{comp} lb_vector_above_optimal_value{sfx m} {resV.getD ""}"
   let resQ := firstSome ps (fun x => let l := r.L x; if decide (l ≤ basicValV m Q x + eps) then none else some s!"ubQ(x)={ratStr (basicValV m Q x)} ref={ratStr l} x={showVec x}")
   let v := v.failIf resQ.isSome s!"{comp} ubQ_below_optimal_value {resQ.getD ""}"
   let resP := firstSome (pts.toList.take 6) (fun (p, val) =>
@@ -334,7 +343,9 @@ def consOp : P String := do
   let v := v.failIf (!(close (dotV m.S b iα) iv)) s!"bestConservativeAction value_not_alpha_at_belief"
   let r := mkRefs m 40 400
   let res := vecAbove m [iα] ((probes m b0 ++ [b]).map (fun x => (x, r.U x))) (epsOf m)
-  let v := v.failIf res.isSome s!"bestConservativeAction alpha_above_optimal_value {res.getD ""}"
+  -- the known defect is exactly the as-found model's behaviour: a failing vector the model does not reproduce is something else
+  let asModel := ma == ia && closeVec m.S mα iα
+  let v := v.failIf res.isSome s!"bestConservativeAction alpha_above_optimal_value{if asModel then sfx m else "_and_model_mismatch"} {res.getD ""}"
   return v.render
 
 def matRows (Q : Mat) : List (List Rat) := Q.toList.map (·.toList)
